@@ -73,7 +73,9 @@ def miri_stage(c):
 
 def asan_stage(c):
     """Thorough only, evidence only: one 64th of the C01 workload (grammar, mutation, ladders) under AddressSanitizer.
-    ASan frames are 2-3x larger, so a stack overflow seen only here is a note; heap reports are notes as well."""
+    ASan frames are several times larger (the depth ladders overflow a 2 MiB thread under ASan although the native build
+    has room to spare), so spawned threads get 32 MiB here: stack depth is decided by the native builds, this stage looks at
+    heap reports only. Reports are notes."""
     import os, time, glob
     if c["tier"] != "thorough":
         return
@@ -91,7 +93,7 @@ def asan_stage(c):
         return
     outp = os.path.join(c["wdir"], "asan.jsonl")
     rc, out = _run([binary, "run", "C01", "--seed", str(c["seed"]), "--tier", "quick", "--shard", "5/64", "--out", outp],
-                   c["wdir"], {"ASAN_OPTIONS": "detect_leaks=0:halt_on_error=1:abort_on_error=0"}, 1800)
+                   c["wdir"], {"ASAN_OPTIONS": "detect_leaks=0:halt_on_error=1:abort_on_error=0", "RUST_MIN_STACK": str(32 << 20)}, 1800)
     evals = 0
     try:
         import json
